@@ -72,6 +72,7 @@ type server struct {
 	port     int          // P (the client's "auth" port; accounting goes to P+1)
 	conn     *net.UDPConn
 	isUp     bool
+	reply    byte // what the server does with the next request it receives: 'u' answer, 'l' record it and answer with a reply the client refuses, 'L' record it and stay silent
 	stopped  chan struct{}
 	accepted []string
 }
@@ -105,7 +106,11 @@ func newServer(w int) *server {
 // connect()ed to some other peer receives nothing from the RADIUS client, so the kernel answers the
 // client's datagram with ICMP port-unreachable exactly as for a closed port (the client's read fails with
 // ECONNREFUSED at once); connect(AF_UNSPEC) dissolves the association again.
-func (s *server) set(up bool) {
+func (s *server) set(mode byte) {
+	up := mode != 'd'
+	s.mu.Lock()
+	s.reply = mode
+	s.mu.Unlock()
 	if s.conn == nil {
 		c, err := net.ListenUDP("udp4", &net.UDPAddr{IP: net.IPv4(127, 0, 0, 1), Port: s.port + 1})
 		if err != nil {
@@ -153,15 +158,26 @@ func (s *server) serve(c *net.UDPConn, stopped chan struct{}) {
 		if err != nil || p.Code != radius.CodeAccountingRequest {
 			continue
 		}
-		resp := p.Response(radius.CodeAccountingResponse)
-		out, err := resp.Encode()
+		s.mu.Lock()
+		mode := s.reply
+		s.mu.Unlock()
+		code := radius.CodeAccountingResponse
+		mark := ""
+		if mode == 'l' || mode == 'L' {
+			// the record is accepted, but the client never learns it: 'l' = a reply the client refuses at
+			// once (wrong code), 'L' = no reply at all (the client waits for its timeout)
+			code, mark = radius.CodeAccessReject, "~"
+		}
+		out, err := p.Response(code).Encode()
 		if err != nil {
 			continue
 		}
 		s.mu.Lock()
-		s.accepted = append(s.accepted, describe(p))
+		s.accepted = append(s.accepted, describe(p)+mark)
 		s.mu.Unlock()
-		c.WriteToUDP(out, from)
+		if mode != 'L' {
+			c.WriteToUDP(out, from)
+		}
 	}
 }
 
@@ -272,6 +288,26 @@ type run struct {
 	before   map[string]string // pending record id -> session id of a Stop record, before the operation
 	drainMu  sync.Mutex
 	drainOwn bool
+	tornAt   int // `!k~`: crash inside the write of the k-th step (markers 20/21), leaving the file torn
+	torn     bool
+	lastPt   int
+	inject   []*injection
+	nested   *injection
+	timeout  time.Duration
+}
+
+// injection = one step of the background processor executed while an API call is parked at a marker
+type injection struct {
+	at      int    // marker id
+	kind    string // deq | retry
+	ans     string
+	done    bool
+	res     string
+	ansIdx  int
+	order   []string
+	applied []byte
+	before  map[string]string
+	obs     string
 }
 
 // live manager instance -> the run that owns it
@@ -295,11 +331,64 @@ func isSend(pt int) bool {
 	return false
 }
 
+func (r *run) nextAnswer(ans string, idx *int) byte {
+	a := byte('u')
+	if *idx < len(ans) {
+		a = ans[*idx]
+	}
+	*idx++
+	return a
+}
+
+func (r *run) stopRecords() map[string]string {
+	m := map[string]string{}
+	for _, p := range r.am.PendingForVerif() {
+		if p.Request.StatusType == bng.AcctStatusStop {
+			m[p.ID] = p.Request.SessionID
+		}
+	}
+	return m
+}
+
+// runInjected executes one processor step from inside a marker of the call in progress
+func (r *run) runInjected(inj *injection) {
+	inj.done = true
+	r.learn()
+	inj.before = r.stopRecords()
+	r.nested = inj
+	switch inj.kind {
+	case "deq":
+		inj.res = "empty"
+		if r.am.StepQueueForVerif() {
+			inj.res = "done"
+		}
+	case "retry":
+		r.am.RetryForVerif()
+		inj.res = "done"
+	}
+	r.nested = nil
+	r.learn()
+	var ord []string
+	for _, id := range inj.order {
+		ord = append(ord, r.rtok(id))
+	}
+	inj.obs = inj.res + "|" + join(ord) + "|" + join(r.abandonedOf(inj.order, inj.applied, inj.before))
+}
+
 func (r *run) hook(pt int, detail string) {
 	if pt == 10 { // end of one drain send: hand the turn to the next drain goroutine
 		if r.drainOwn {
 			r.drainOwn = false
 			r.drainMu.Unlock()
+		}
+		return
+	}
+	if inj := r.nested; inj != nil { // a marker of the injected processor step
+		if isSend(pt) {
+			a := r.nextAnswer(inj.ans, &inj.ansIdx)
+			r.c.srv.set(a)
+			inj.order = append(inj.order, detail)
+			inj.applied = append(inj.applied, a)
 		}
 		return
 	}
@@ -309,23 +398,40 @@ func (r *run) hook(pt int, detail string) {
 	}
 	r.mu.Lock()
 	die := r.crashed
-	if !die {
+	counted := pt != 20 && pt != 21 && pt != 12
+	if !die && counted {
 		r.markers++
+		r.lastPt = pt
 		if r.crashAt > 0 && r.markers == r.crashAt {
 			r.crashed, r.crashPt, die = true, pt, true
 		}
 	}
-	if !die && isSend(pt) {
-		a := byte('u')
-		if r.ansIdx < len(r.answers) {
-			a = r.answers[r.ansIdx]
+	if !die && (pt == 20 || pt == 21) && r.tornAt > 0 && r.markers == r.tornAt {
+		// crash inside the write that follows: the file it was about to write is left empty
+		os.WriteFile(detail, nil, 0600)
+		r.crashed, r.crashPt, r.torn, die = true, r.lastPt, true, true
+	}
+	var todo *injection
+	if !die {
+		for _, inj := range r.inject {
+			if inj.at == pt && !inj.done {
+				todo = inj
+				break
+			}
 		}
-		r.ansIdx++
-		r.c.srv.set(a == 'u')
-		r.order = append(r.order, detail)
-		r.applied = append(r.applied, a)
 	}
 	r.mu.Unlock()
+	if todo != nil {
+		r.runInjected(todo)
+	}
+	if !die && counted && isSend(pt) {
+		r.mu.Lock()
+		a := r.nextAnswer(r.answers, &r.ansIdx)
+		r.c.srv.set(a)
+		r.order = append(r.order, detail)
+		r.applied = append(r.applied, a)
+		r.mu.Unlock()
+	}
 	if die {
 		if pt == 9 {
 			r.drainOwn = false
@@ -397,7 +503,7 @@ func (r *run) newManager() {
 	client, err := bng.NewClient(bng.ClientConfig{
 		Servers:   []bng.ServerConfig{{Host: "127.0.0.1", Port: r.c.srv.port, Secret: secret}},
 		NASID:     "verif-nas",
-		Timeout:   2 * time.Second,
+		Timeout:   r.timeout,
 		Retries:   1,
 		RateLimit: bng.RateLimitConfig{RequestsPerSecond: 1e9, BurstSize: 1 << 30},
 	}, zap.NewNop())
@@ -571,15 +677,47 @@ func (r *run) volatile() string {
 	return "sess=" + join(ss) + " pend=" + join(ps) + " queue=" + join(qs)
 }
 
-func parseCrash(toks []string) ([]string, int) {
+// parseCrash strips a trailing `!k` (crash at the k-th marker) or `!k~` (crash inside the write of the k-th
+// step, file left torn); torn is reported as a negative k-1000000 ... kept simple: second result torn flag
+func parseCrash(toks []string) ([]string, int, bool) {
 	if n := len(toks); n > 0 && strings.HasPrefix(toks[n-1], "!") {
-		k, err := strconv.Atoi(toks[n-1][1:])
+		t := toks[n-1][1:]
+		torn := strings.HasSuffix(t, "~")
+		t = strings.TrimSuffix(t, "~")
+		k, err := strconv.Atoi(t)
 		if err == nil && k > 0 {
-			return toks[:n-1], k
+			return toks[:n-1], k, torn
 		}
-		return toks[:n-1], -1
+		return toks[:n-1], -1, false
 	}
-	return toks, 0
+	return toks, 0, false
+}
+
+// parseInject strips trailing `@<marker>:deq|retry:<ans>` tokens
+func parseInject(toks []string) ([]string, []*injection, bool) {
+	var out []*injection
+	for len(toks) > 0 && strings.HasPrefix(toks[len(toks)-1], "@") {
+		f := strings.Split(toks[len(toks)-1][1:], ":")
+		if len(f) != 3 || (f[1] != "deq" && f[1] != "retry") || !okAns(f[2]) {
+			return toks, nil, false
+		}
+		at, err := strconv.Atoi(f[0])
+		if err != nil {
+			return toks, nil, false
+		}
+		switch at { // markers of API calls at which the background processor may be running
+		case 1, 2, 3, 4, 5, 6, 17, 9, 19:
+		default:
+			return toks, nil, false
+		}
+		a := f[2]
+		if a == "-" {
+			a = ""
+		}
+		out = append([]*injection{{at: at, kind: f[1], ans: a}}, out...)
+		toks = toks[:len(toks)-1]
+	}
+	return toks, out, true
 }
 
 func okAns(a string) bool {
@@ -587,7 +725,7 @@ func okAns(a string) bool {
 		return true
 	}
 	for _, ch := range a {
-		if ch != 'u' && ch != 'd' {
+		if ch != 'u' && ch != 'd' && ch != 'l' && ch != 'L' {
 			return false
 		}
 	}
@@ -600,12 +738,11 @@ func (r *run) exec(ans string, crashAt int, f func()) bool {
 		ans = ""
 	}
 	r.answers, r.ansIdx, r.markers, r.crashAt, r.crashed, r.crashPt, r.order, r.applied = ans, 0, 0, crashAt, false, 0, nil, nil
-	r.before = map[string]string{}
-	for _, p := range r.am.PendingForVerif() {
-		if p.Request.StatusType == bng.AcctStatusStop {
-			r.before[p.ID] = p.Request.SessionID
-		}
+	r.torn, r.lastPt = false, 0
+	if r.tornAt > 0 {
+		r.crashAt = 0
 	}
+	r.before = r.stopRecords()
 	r.call(f)
 	r.learn()
 	if r.crashed {
@@ -625,35 +762,64 @@ func (r *run) ordR() string {
 	return "ord=" + join(xs)
 }
 
-// abandoned lists the sessions a Stop record of which was given up in this operation: it was processed,
-// the server was down for it, and it is gone from the retry map
-func (r *run) abandoned(proc bool) string {
+// abandonedOf lists the sessions a Stop record of which was given up: it was processed, the client got no
+// acknowledgement for it, and it is gone from the retry map
+func (r *run) abandonedOf(order []string, applied []byte, before map[string]string) []string {
 	var xs []string
-	if proc {
-		now := map[string]bool{}
-		for _, p := range r.am.PendingForVerif() {
-			now[p.ID] = true
-		}
-		for i, id := range r.order {
-			if sid, ok := r.before[id]; ok && i < len(r.applied) && r.applied[i] == 'd' && !now[id] {
-				xs = append(xs, sid)
-			}
+	now := map[string]bool{}
+	for _, p := range r.am.PendingForVerif() {
+		now[p.ID] = true
+	}
+	for i, id := range order {
+		if sid, ok := before[id]; ok && i < len(applied) && applied[i] != 'u' && !now[id] {
+			xs = append(xs, sid)
 		}
 	}
-	return "ab=" + join(xs)
+	return xs
+}
+
+func (r *run) abandoned(proc bool) string {
+	if !proc {
+		return "ab=-"
+	}
+	return "ab=" + join(r.abandonedOf(r.order, r.applied, r.before))
+}
+
+func (r *run) injObs() string {
+	out := ""
+	for _, inj := range r.inject {
+		if inj.done {
+			out += fmt.Sprintf(" inj=%d:%s", inj.at, inj.obs)
+		} else {
+			out += fmt.Sprintf(" inj=%d:-", inj.at)
+		}
+	}
+	return out
 }
 
 func (r *run) crashedObs(ord string, proc bool) string {
-	return fmt.Sprintf("crashed@%d %s %s %s dur=%s", r.crashPt, r.acc(), ord, r.abandoned(proc), r.durable())
+	t := ""
+	if r.torn {
+		t = "~"
+	}
+	return fmt.Sprintf("crashed@%d%s %s %s %s dur=%s%s", r.crashPt, t, r.acc(), ord, r.abandoned(proc), r.durable(), r.injObs())
 }
 
 func (r *run) Do(op string) string {
-	toks, crashAt := parseCrash(hx.Fields(op))
+	toks, crashAt, torn := parseCrash(hx.Fields(op))
 	if crashAt < 0 || len(toks) == 0 {
 		return "badop"
 	}
+	toks, inject, okInj := parseInject(toks)
+	if !okInj || len(toks) == 0 {
+		return "badop"
+	}
+	r.inject, r.tornAt = inject, 0
+	if torn {
+		r.tornAt = crashAt
+	}
 	if toks[0] == "new" {
-		if len(toks) != 3 || r.dir != "" {
+		if (len(toks) != 3 && len(toks) != 4) || r.dir != "" || crashAt != 0 || len(inject) != 0 {
 			return "badop"
 		}
 		mr, e1 := strconv.Atoi(toks[1])
@@ -661,13 +827,21 @@ func (r *run) Do(op string) string {
 		if e1 != nil || e2 != nil || mr < 1 || qc < 1 {
 			return "badop"
 		}
+		r.timeout = 2 * time.Second
+		if len(toks) == 4 { // client timeout in ms (for the silent-server answer `L`)
+			ms, e3 := strconv.Atoi(toks[3])
+			if e3 != nil || ms < 1 {
+				return "badop"
+			}
+			r.timeout = time.Duration(ms) * time.Millisecond
+		}
 		r.maxRetries, r.qcap = mr, qc
 		r.dir = filepath.Join(r.c.root, fmt.Sprintf("seq%d", r.c.nseq))
 		os.RemoveAll(r.dir)
 		if err := os.MkdirAll(r.dir, 0755); err != nil {
 			panic(err)
 		}
-		r.c.srv.set(true)
+		r.c.srv.set('u')
 		r.c.srv.take()
 		r.newManager()
 		r.exec("", 0, func() { r.am.StartForVerif() })
@@ -675,6 +849,13 @@ func (r *run) Do(op string) string {
 	}
 	if r.dir == "" {
 		return "badop"
+	}
+	switch toks[0] {
+	case "start", "interim", "stop", "shutdown":
+	default:
+		if len(inject) != 0 {
+			return "badop" // a processor step can only be injected into an API call (the processor itself is one goroutine)
+		}
 	}
 	switch toks[0] {
 	case "ctr":
@@ -820,7 +1001,7 @@ func (r *run) Do(op string) string {
 		r.alive = false
 		out += " dur=" + r.durable()
 	}
-	return out
+	return out + r.injObs()
 }
 
 func validSid(s string) bool {
